@@ -8,6 +8,11 @@ LEVEL = "model_checking"
 def nontrivial(chk, st, rid, evs):
     rs = first(evs, "Reset")
     rets = all_of(evs, "EndReturn")
+    if rs and len(rets) >= 1 and st["scen"] == "legc":
+        reb = first(evs, "Rebase")
+        if reb and sum(1 for e in reb["circ"]["cells"] if not e["f"]) >= 2:
+            chk.nontrivial("c%s" % rs["gseed"])
+        return
     if rs and len(rets) == 2 and sum(1 for e in rs["circ"]["cells"] if not e["f"]) >= 2:
         chk.nontrivial("g%s" % rs["gseed"])
         chk.sample({"run": rid, "movable": sum(1 for e in rs["circ"]["cells"] if not e["f"]), "ow": rs["params"]["ow"],
@@ -21,6 +26,11 @@ def run(chk):
         dict(flavour="asan-ubsan", scen="leg", runs=(1200, 30000), opts={"cb": 0, "singleRowOnly": 1, "turned": 0, "wideOrdering": 0, "varyScale": 8}),
         # the whole accepted range [-1,2]
         dict(flavour="rel", scen="leg", runs=(800, 20000), opts={"cb": 0, "singleRowOnly": 1, "turned": 0, "wideOrdering": 1, "varyScale": 8}),
+    ]
+    plan += [
+        # directly constructed legal placements: dense rows, exactly full segments, obstructions, polarities
+        dict(flavour="asan-ubsan", scen="legc", runs=(1000, 25000), opts={"cb": 0, "singleRowOnly": 1, "turned": 0, "wideOrdering": 0, "varyScale": 8,
+                                                                          "utilLo": 0.5, "utilHi": 1.6, "maxMovable": 14}),
     ]
     run_plan(chk, "C11", plan, nontrivial)
     chk.cov["rule"] = ("legalize; legalize on random circuits whose movable cells are all one row high (obstructions, split rows, polarities, "
